@@ -32,7 +32,7 @@ COMMON_ASSUME = [
 prop('C17', harness='puremon', floor=5000, batches={'quick': 1, 'thorough': 1},
      assumptions=['Go comparison operators on int and string are the reference order/equality'])
 
-prop('C20', harness='ipipemon', floor=5000, batches={'quick': 1, 'thorough': 1}, stage=True,
+prop('C20', harness='ipipemon', tags='hetero', tags_optional='C20/signature: a chain with one distinct type per stage, well-typed by the generic signature of PipeN, no longer compiles', floor=5000, batches={'quick': 1, 'thorough': 1}, stage=True,
      assumptions=['internal/pipe is built from a staged copy of the working tree (it is outside every go.mod); _test.go files are not staged'])
 
 prop('C19', harness='seqmon', floor=5000, batches={'quick': 1, 'thorough': 1}, stage=True,
@@ -94,7 +94,8 @@ def prep_optgen(ctx, cfg, tier, seed):
         for sub in ('sa', 'sb'):   # static corpus: two packages named x, each with a type Str
             os.makedirs(os.path.join(tmpd, sub, 'x'))
             with open(os.path.join(tmpd, sub, 'x', 'x.go'), 'w') as f:
-                f.write('// Package x (%s): same package name and type name as its sibling; the types are distinct.\npackage x\n\ntype Str string\n' % sub)
+                box = 'type Box struct {\n\tNote string\n\tN    int\n}\n' if sub == 'sa' else 'type Box struct {\n\tPad  [3]int64\n\tNote string\n\tFlag bool\n\tN    int\n}\n'
+                f.write('// Package x (%s): same package name and type names as its sibling; the types are distinct.\npackage x\n\ntype Str string\n\n%s' % (sub, box))
         mod = open(ctx.modfile).read().replace('module verif/harness', 'module optgen', 1)
         mod = mod.replace('require (', 'require (\n\tverif/harness v0.0.0', 1).replace('replace (', 'replace (\n\tverif/harness => %s/harness' % ROOT, 1)
         # staged copies are per-invocation temp dirs: the generated program does not use them
@@ -412,7 +413,16 @@ def run_property(pid, tier, seed, replay=None):
         with ThreadPoolExecutor(max_workers=4) as ex:
             futs = {m: ex.submit(build, ctx, cfg['harness'], cfg['kind'], m, prep.get('pkgdir'), cfg.get('tags')) for m in modes}
             for m, f in futs.items():
-                bins[m] = f.result()
+                try:
+                    bins[m] = f.result()
+                except BuildError as e:
+                    if not cfg.get('tags_optional'):
+                        raise
+                    # the tagged part of the harness is client code that is well-typed by the library's documented
+                    # signatures: if only that part stops compiling, that is a refutation, and the rest still runs
+                    bins[m] = build(ctx, cfg['harness'], cfg['kind'], m, prep.get('pkgdir'), None)
+                    sig, _, what = cfg['tags_optional'].partition(': ')
+                    violations.append(dict(sig=sig, desc=what + ' — compiler: ' + str(e)[-700:], case=None, n=1, mode=m))
         nb = 1 if replay else cfg['batches'][tier]
         jobs = []
         for m in modes:
